@@ -51,9 +51,9 @@ coap_opt_t *coap_check_option(const coap_pdu_t *pdu, coap_option_num_t number, c
 #define MEMCAP BLK
 /* hook: what the source of the last memmove starts with at call time (the editors re-encode the follower's header in place
  * and THEN move it together with the tail; with mem* = arbitrary bytes the moved header is not visible afterwards) */
-int G_mm_calls, G_mm_wf; uint32_t G_mm_delta, G_mm_len; const uint8_t *G_mm_src; uint8_t *G_mm_dst; size_t G_mm_n;
+int G_mm_calls, G_mm_wf, G_mm_decode; uint32_t G_mm_delta, G_mm_len; const uint8_t *G_mm_src; uint8_t *G_mm_dst; size_t G_mm_n;
 #define VH_MEMMOVE_HOOK(d, s, n) do { G_mm_calls++; G_mm_src = (const uint8_t *)(s); G_mm_dst = (uint8_t *)(d); G_mm_n = (n); \
-  G_mm_wf = (n) > 0 && WELLFORMED((const uint8_t *)(s), (n)); if (G_mm_wf) { G_mm_delta = DELTA((const uint8_t *)(s)); G_mm_len = LENV((const uint8_t *)(s)); } } while (0)
+  G_mm_wf = G_mm_decode && (n) > 0 && WELLFORMED((const uint8_t *)(s), (n)); if (G_mm_wf) { G_mm_delta = DELTA((const uint8_t *)(s)); G_mm_len = LENV((const uint8_t *)(s)); } } while (0)
 #include "stubs/mem_havoc_fixed.h"
 void harness(void) {
   HARNESS_PDU(pdu);
@@ -91,7 +91,7 @@ void harness(void) {
   ASSUME(!data_off || tk[opt_end] == 0xFF);
   ASSUME(g < used_size);
   const uint8_t old_g = tk[g]; const size_t old_etkl = pdu->e_token_length;
-  G_pdu = pdu; G_it = 0; G_mm_calls = 0; G_mm_wf = 0;
+  G_pdu = pdu; G_it = 0; G_mm_calls = 0; G_mm_wf = 0; G_mm_decode = (WHICH != 3);   /* the follower matters to insert / remove only */
 #if WHICH == 1
   /* insert `number` before the option at po (the follower); behind the follower: arbitrary well-formed rest (not looked at) */
   ASSUME(po + sz_this <= opt_end && max_opt >= num_this && number >= prevnum && number < num_this);
@@ -155,7 +155,7 @@ void harness(void) {
   CHECK(!r || (data_off ? (pdu->data != NULL && (size_t)(pdu->data - pdu->token) == data_off - oldsz + newsz) : pdu->data == NULL), "coap_update_option: the payload moves by the same amount");
   CHECK(!r || (pdu->max_opt == max_opt && pdu->e_token_length == old_etkl), "coap_update_option keeps the token and the highest option number");
   CHECK(!r || (DELTA(pdu->token + po) == d_this && LENV(pdu->token + po) == len && HDR(pdu->token + po) == HDRSZ(d_this, len)), "coap_update_option: the option keeps its delta (number) and carries the new length, at the same position");
-  CHECK(!r || newsz == oldsz || (G_mm_calls == 1 && G_mm_src == G_mm_dst - newsz + oldsz && G_mm_dst == pdu->token + po + newsz && G_mm_n == used_size - po - oldsz), "everything behind the option is moved as one block to directly behind the rewritten option");
+  CHECK(!r || newsz == oldsz || (G_mm_calls == 1 && G_mm_src == pdu->token + po + oldsz && G_mm_dst == pdu->token + po + newsz && G_mm_n == used_size - po - oldsz), "everything behind the option is moved as one block to directly behind the rewritten option");
   CHECK(r || (pdu->used_size == used_size && pdu->token[g] == old_g && (data_off ? (size_t)(pdu->data - pdu->token) == data_off : pdu->data == NULL)), "coap_update_option: a refused update disturbs neither sizes nor any byte of the message");
   CHECK(!r || g >= po || pdu->token[g] == old_g, "coap_update_option leaves every byte before the option alone");
   MUSTFAIL(!(r && newsz > oldsz + 1 && data_off), "grow_across_threshold_reachable"); MUSTFAIL(!(r && newsz + 1 < oldsz), "shrink_reachable"); MUSTFAIL(r, "refusal_reachable");
